@@ -48,7 +48,7 @@ CLAUSES = ["potential-positive", "potential-decreasing", "scattering-factor-posi
            "projected-scattering-factor-is-f-over-kappa", "scattering-factor-is-3d-transform", "all-elements-callable",
            "history:function-of-own-table", "history:repeatable", "history:table-unchanged", "history:consistent-at-end"]
 QUICK = dict(n=34, time=45)
-THOROUGH = dict(n=1000, time=400, shards=16)
+THOROUGH = dict(n=8000, time=480, shards=16)
 ASSUMPTIONS = ["radii in [0.01, 6] A and spatial frequencies in [0, 6] 1/A (the range used by abTEM's integrators and grids)",
                "ionic tables (peng_ionic.json) are outside the statement: anions have negative scattering factors at small k"]
 
